@@ -195,6 +195,30 @@ impl Node {
     }
 }
 
+/// Verification hook: view of the node's state (no behaviour).
+#[cfg(feature = "verif")]
+impl Node {
+    /// Ages of (last query received, last answer, last query sent) and the unanswered-query
+    /// counter.
+    #[allow(clippy::type_complexity)]
+    pub fn verif_snapshot(
+        &self,
+    ) -> (
+        Option<Duration>,
+        Option<Duration>,
+        Option<Duration>,
+        usize,
+    ) {
+        let now = Instant::now();
+        (
+            self.last_request.map(|t| now - t),
+            self.last_response.map(|t| now - t),
+            self.last_local_request.map(|t| now - t),
+            self.refresh_requests,
+        )
+    }
+}
+
 impl Eq for Node {}
 
 impl PartialEq<Node> for Node {
